@@ -33,19 +33,21 @@ type c03Row struct {
 }
 
 type c03Case struct {
-	Cfg     string   `json:"cfg"`
-	Seq     string   `json:"seq,omitempty"`      // "" | key (sequence on the sharding column) | seq (sequence on column seq)
-	SeqOmit bool     `json:"seq_omit,omitempty"` // the sequence column is left out of the column list
-	Form    string   `json:"form"`               // values | set
-	Replace bool     `json:"replace,omitempty"`
-	OnDup   bool     `json:"ondup,omitempty"`
-	Style   string   `json:"style"` // bare | db | colq
-	KeyPos  int      `json:"key_pos"`
-	Child   bool     `json:"child,omitempty"` // insert into the linked child table (own sharding column)
-	Deco    string   `json:"deco,omitempty"`  // U upper, M mixed, Q back-quoted, C comment before the name, I INTO omitted
-	PCol    bool     `json:"pcol,omitempty"`  // child insert also sets the column named like the parent's sharding column
-	Rows    []c03Row `json:"rows"`
-	SQL     string   `json:"sql,omitempty"`
+	Cfg      string   `json:"cfg"`
+	Seq      string   `json:"seq,omitempty"`      // "" | key (sequence on the sharding column) | seq (sequence on column seq)
+	SeqOmit  bool     `json:"seq_omit,omitempty"` // the sequence column is left out of the column list
+	Form     string   `json:"form"`               // values | set
+	Replace  bool     `json:"replace,omitempty"`
+	OnDup    bool     `json:"ondup,omitempty"`
+	OnDupKey string   `json:"ondup_key,omitempty"` // ON DUPLICATE KEY UPDATE assigns the sharding column, spelled bare | upper | bq | tbl | db
+	OnDupLit string   `json:"ondup_lit,omitempty"` // the value it assigns
+	Style    string   `json:"style"`               // bare | db | colq
+	KeyPos   int      `json:"key_pos"`
+	Child    bool     `json:"child,omitempty"` // insert into the linked child table (own sharding column)
+	Deco     string   `json:"deco,omitempty"`  // U upper, M mixed, Q back-quoted, C comment before the name, I INTO omitted
+	PCol     bool     `json:"pcol,omitempty"`  // child insert also sets the column named like the parent's sharding column
+	Rows     []c03Row `json:"rows"`
+	SQL      string   `json:"sql,omitempty"`
 }
 
 func c03Routable(kind, seq string) bool {
@@ -170,8 +172,26 @@ func c03SQL(c *plCfg, cs *c03Case) string {
 			sb.WriteString(")")
 		}
 	}
-	if cs.OnDup && !cs.Replace {
-		sb.WriteString(" ON DUPLICATE KEY UPDATE v = 'dup'")
+	if (cs.OnDup || cs.OnDupKey != "") && !cs.Replace {
+		var as []string
+		if cs.OnDup {
+			as = append(as, "v = 'dup'")
+		}
+		if cs.OnDupKey != "" {
+			k := lkey
+			switch cs.OnDupKey {
+			case "upper":
+				k = strings.ToUpper(lkey)
+			case "bq":
+				k = "`" + lkey + "`"
+			case "tbl":
+				k = sp.Name + "." + lkey
+			case "db":
+				k = c.DB + "." + sp.Name + "." + lkey
+			}
+			as = append(as, k+" = "+cs.OnDupLit)
+		}
+		sb.WriteString(" ON DUPLICATE KEY UPDATE " + strings.Join(as, ", "))
 	}
 	return sb.String()
 }
@@ -412,7 +432,7 @@ func c03Run(cs *c03Case) (res c03Result) {
 			res.Clause, res.Detail = "verb-changed", "INSERT/REPLACE verb differs in sent text: "+c03Restore(w.Stmt)
 			return
 		}
-		if (len(w.Stmt.OnDuplicate) > 0) != (cs.OnDup && !cs.Replace) {
+		if (len(w.Stmt.OnDuplicate) > 0) != ((cs.OnDup || cs.OnDupKey != "") && !cs.Replace) {
 			res.Clause, res.Detail = "ondup-changed", "ON DUPLICATE KEY UPDATE clause differs in sent text: "+c03Restore(w.Stmt)
 			return
 		}
@@ -471,6 +491,28 @@ func c03Run(cs *c03Case) (res c03Result) {
 		}
 		if len(want) == 1 {
 			res.PointLookups++
+		}
+		// an ON DUPLICATE KEY UPDATE that assigns the sharding column rewrites the key of the row
+		// already stored in this table: it must stay where a point query on the new key looks
+		for _, a := range w.Stmt.OnDuplicate {
+			if a.Column.Name.L != lkey {
+				continue
+			}
+			nk, ok := c03Stored(c, a.Expr)
+			if !ok {
+				continue
+			}
+			stays := false
+			for _, x := range c03Lookup(c, cs.seqCol0(), ltbl, lkey, nk) {
+				if x == w.Idx {
+					stays = true
+				}
+			}
+			if !stays {
+				res.Clause = "ondup-moves-key"
+				res.Detail = fmt.Sprintf("accepted with ON DUPLICATE KEY UPDATE %s: on a duplicate the row stored in %s gets sharding value %s, which `SELECT .. WHERE %s = %s` looks for in table indexes %v", c03Restore(a), w.Addr.String(), nk, lkey, nk, c03Lookup(c, cs.seqCol0(), ltbl, lkey, nk))
+				return
+			}
 		}
 	}
 	return
@@ -604,6 +646,16 @@ func c03Minimize(cs *c03Case, clause string) (*c03Case, string) {
 			x.OnDup = false
 			cands = append(cands, &x)
 		}
+		if cur.OnDupKey != "" {
+			x := cur
+			x.OnDupKey, x.OnDupLit = "", ""
+			cands = append(cands, &x)
+			if cur.OnDupKey != "bare" {
+				y := cur
+				y.OnDupKey = "bare"
+				cands = append(cands, &y)
+			}
+		}
 		if cur.Style != "bare" {
 			x := cur
 			x.Style = "bare"
@@ -685,6 +737,9 @@ func c03Minimize(cs *c03Case, clause string) (*c03Case, string) {
 	}
 	if cur.OnDup {
 		parts = append(parts, "ondup")
+	}
+	if cur.OnDupKey != "" {
+		parts = append(parts, "ondup-key="+cur.OnDupKey)
 	}
 	if cur.Style != "bare" {
 		parts = append(parts, "style="+cur.Style)
@@ -903,6 +958,17 @@ func TestVerif_C03(t *testing.T) {
 		for _, st := range []string{"bare", "db"} {
 			c03Global(rec, c, st, 1+len(id)%3)
 		}
+		// ON DUPLICATE KEY UPDATE that assigns the sharding column, every spelling, VALUES and SET
+		for _, spell := range []string{"bare", "upper", "bq", "tbl", "db"} {
+			for j, form := range []string{"values", "set"} {
+				rows, ok := mk(r, c, []string{"lit"})
+				lit, ok2 := c03KeyOf(r, c, "lit")
+				if ok && ok2 {
+					runOne(&c03Case{Cfg: id, Form: form, Style: []string{"bare", "db"}[j], KeyPos: j, OnDup: j == 1, OnDupKey: spell, OnDupLit: lit, Rows: rows})
+					runOne(&c03Case{Cfg: id, Form: form, Style: "bare", KeyPos: 1, Child: true, PCol: j == 0, OnDupKey: spell, OnDupLit: lit, Rows: rows})
+				}
+			}
+		}
 		// every spelling of the table reference, VALUES and SET form, INSERT and REPLACE
 		if rows, ok := mk(r, c, []string{"lit"}); ok {
 			for _, dc := range []string{"U", "M", "Q", "C", "I", "UI", "MI", "QI", "CI", "UQ", "MC", "QC"} {
@@ -977,6 +1043,11 @@ func TestVerif_C03(t *testing.T) {
 			continue
 		}
 		cs.Rows = rows
+		if !cs.Replace && cs.Seq == "" && r.Chance(1, 8) {
+			if lit, ok := c03KeyOf(r, c, "lit"); ok {
+				cs.OnDupKey, cs.OnDupLit = []string{"bare", "upper", "bq", "tbl", "db"}[r.Intn(5)], lit
+			}
+		}
 		runOne(cs)
 	}
 
